@@ -1112,6 +1112,11 @@ rrul_fill_yly(echs_instant_t *restrict tgt, size_t nti, rrulsp_t rr)
 					x = echs_instant_attach_scale(x, srcsca);
 
 					tries = 64U;
+					if (UNLIKELY(res >= nti)) {
+						/* cache is full, the next refill
+						 * resumes with this very instant */
+						goto fin;
+					}
 					tgt[res + GRP_CCH_OFF] = (echs_instant_t){.y = y};
 					tgt[res++] = x;
 				}
@@ -1284,6 +1289,11 @@ rrul_fill_mly(echs_instant_t *restrict tgt, size_t nti, rrulsp_t rr)
 					x = echs_instant_attach_scale(x, srcsca);
 
 					tries = 64U;
+					if (UNLIKELY(res >= nti)) {
+						/* cache is full, the next refill
+						 * resumes with this very instant */
+						goto fin;
+					}
 					tgt[res + GRP_CCH_OFF] = (echs_instant_t){.y = y, .m = m};
 					tgt[res++] = x;
 				}
@@ -1432,6 +1442,11 @@ rrul_fill_wly(echs_instant_t *restrict tgt, size_t nti, rrulsp_t rr)
 				/* attach scale and convert back to greg */
 				x = echs_instant_attach_scale(x, srcsca);
 
+				if (UNLIKELY(res >= nti)) {
+					/* cache is full, the next refill
+					 * resumes with this very instant */
+					goto fin;
+				}
 				tgt[res++] = x;
 			}
 		} while ((incs >>= 4U) && res < nti);
@@ -1582,6 +1597,11 @@ rrul_fill_dly(echs_instant_t *restrict tgt, size_t nti, rrulsp_t rr)
 			/* attach scale and convert back to greg */
 			x = echs_instant_attach_scale(x, srcsca);
 
+			if (UNLIKELY(res >= nti)) {
+				/* cache is full, the next refill
+				 * resumes with this very instant */
+				goto fin;
+			}
 			tgt[res + GRP_CCH_OFF] = x;
 			tgt[res++] = x;
 		}
@@ -1759,6 +1779,11 @@ rrul_fill_Hly(echs_instant_t *restrict tgt, size_t nti, rrulsp_t rr)
 			if (UNLIKELY(echs_instant_lt_p(x, proto))) {
 				continue;
 			} else if (UNLIKELY(echs_instant_lt_p(rr->until, x))) {
+				goto fin;
+			}
+			if (UNLIKELY(res >= nti)) {
+				/* cache is full, the next refill
+				 * resumes with this very instant */
 				goto fin;
 			}
 			tgt[res++] = x;
@@ -1941,6 +1966,11 @@ rrul_fill_Mly(echs_instant_t *restrict tgt, size_t nti, rrulsp_t rr)
 			if (UNLIKELY(echs_instant_lt_p(x, proto))) {
 				continue;
 			} else if (UNLIKELY(echs_instant_lt_p(rr->until, x))) {
+				goto fin;
+			}
+			if (UNLIKELY(res >= nti)) {
+				/* cache is full, the next refill
+				 * resumes with this very instant */
 				goto fin;
 			}
 			tgt[res++] = x;
